@@ -1710,7 +1710,7 @@ func (s *ImmuServer) getDBFromCtx(ctx context.Context, methodName string) (datab
 	}
 
 	// systemdb is always read-only from external access
-	if ind == sysDBIndex && !auth.IsMaintenanceMethod(methodName) {
+	if ind == sysDBIndex && !auth.IsSystemDBMethod(methodName) {
 		return nil, ErrPermissionDenied
 	}
 
